@@ -66,8 +66,11 @@ def swap01 {α : Type} : List α → List α
 def gsum {α : Type} [Add α] (zero : α) (xs : List α) : α := xs.foldl (· + ·) zero
 
 def fsum (xs : List Float) : Float := gsum 0.0 xs
-def entropy (xs : List Float) : Float :=
-  -(fsum (xs.map fun p => if p == 0.0 then 0.0 else p * Float.log2 p))
+/-- `_entropy(p) = −Σ p log₂ p` with `0 log 0 = 0`; generic in the scalar type and its logarithm -/
+def entropyG {α : Type} [Add α] [Mul α] [Neg α] [BEq α] (zero : α) (log2 : α → α) (xs : List α) : α :=
+  -(gsum zero (xs.map fun p => if p == zero then zero else p * log2 p))
+
+def entropy (xs : List Float) : Float := entropyG 0.0 Float.log2 xs
 
 /-- `p = cmat / cmat.sum()`: the normalised co-occurrence matrix (row-major), generic in the scalar type -/
 def normMat {α : Type} [Div α] (cast : Nat → α) (c : List Nat) : Array α :=
@@ -146,6 +149,20 @@ def diffVarG {α : Type} [Add α] [Sub α] [Mul α] [Div α] (zero : α) (cast :
   let mean := gsum zero pminus / cast m
   gsum zero (pminus.map fun v => (v - mean) * (v - mean)) / cast m
 
+/-- `HXY1 = −Σ_{i,j} p(i,j) log₂(p_x(j) p_y(i))` (terms with `p(i,j) = 0` dropped) -/
+def hxy1G {α : Type} [Add α] [Mul α] [Neg α] [BEq α] (zero : α) (log2 : α → α) (m : Nat) (P : Nat → Nat → α)
+    (px py : List α) : α :=
+  -(gsum zero ((allPairs m).map fun ij =>
+    let q := px.getD ij.2 zero * py.getD ij.1 zero
+    if P ij.1 ij.2 == zero then zero else P ij.1 ij.2 * log2 q))
+
+/-- `HXY2 = −Σ_{i,j} p_x(j) p_y(i) log₂(p_x(j) p_y(i))` -/
+def hxy2G {α : Type} [Add α] [Mul α] [Neg α] [BEq α] (zero : α) (log2 : α → α) (m : Nat) (_P : Nat → Nat → α)
+    (px py : List α) : α :=
+  -(gsum zero ((allPairs m).map fun ij =>
+    let q := px.getD ij.2 zero * py.getD ij.1 zero
+    if q == zero then zero else q * log2 q))
+
 /-- features 1..13 (Haralick 1973, with the corrected sum variance `Σ (k − f6)² p_{x+y}(k)`;
     f10 = variance of the *values* of `p_{x−y}` (mahotas' default interpretation)).
     `c` = integer matrix (row-major, `m×m`, already symmetrised / zero-stripped). -/
@@ -161,7 +178,6 @@ def haralick13 (m : Nat) (c : List Nat) : List Float :=
   let vy := varG 0.0 fl py m
   let pplus := pplusG 0.0 m P
   let pminus := pminusG 0.0 m P
-  let all := allPairs m
   let f1 := asmG 0.0 m P
   let f2 := contrastG 0.0 fl m pminus
   let f3 := covG 0.0 fl m P ux uy / (Float.sqrt vx * Float.sqrt vy)
@@ -175,12 +191,8 @@ def haralick13 (m : Nat) (c : List Nat) : List Float :=
   let f11 := entropy pminus
   let hx := entropy px
   let hy := entropy py
-  let hxy1 := -(fsum (all.map fun (i, j) =>
-    let q := px.getD j 0.0 * py.getD i 0.0
-    if P i j == 0.0 then 0.0 else P i j * Float.log2 q))
-  let hxy2 := -(fsum (all.map fun (i, j) =>
-    let q := px.getD j 0.0 * py.getD i 0.0
-    if q == 0.0 then 0.0 else q * Float.log2 q))
+  let hxy1 := hxy1G 0.0 Float.log2 m P px py
+  let hxy2 := hxy2G 0.0 Float.log2 m P px py
   let f12 := (f9 - hxy1) / (if hx < hy then hy else hx)
   let e := 1.0 - Float.exp (-2.0 * (hxy2 - f9))
   let f13 := Float.sqrt (if e < 0.0 then 0.0 else e)
